@@ -182,7 +182,7 @@ Definition obs_match (model impl : obs) : bool :=
   | BFile None, BFile None => true
   | BFile (Some (FNpy a)), BFile (Some (FNpy a')) => arr_eqb a a'
   | BFile (Some (FNpz cmp es)), BFile (Some (FNpz cmp' es')) =>
-    Bool.eqb cmp cmp' && list_eqb entry_eqb es es'
+    (match es with [] => true | _ => Bool.eqb cmp cmp' end) && list_eqb entry_eqb es es'
   | BApply _, BApply _ => true
   | _, _ => false
   end.
